@@ -19,7 +19,7 @@ CHECKS["C10"] = dict(
     technique="TLA+ spec + TLC exhaustive model check over thread interleavings; behaviour replay on real threads; trace validation by TLC",
     design="DESIGN.md §5 C10")
 CHECKS["C19"] = dict(
-    text="TLC exhaustively checks spec/Waker.tla (original waker count/wakes, shared records, foreign waker slots owned by threads, polls) and shows that the pre-fix deviation violates ReleasedAtMostOnce; every generated behaviour is replayed through opaque Future, Stream and Sink objects whose poll executes the script step by step so other threads' operations interleave with the poll; simulate behaviours of depth 60; random traces validated by TLC. Later rounds: two caller wakers (successive polls come with different wakers; a retained foreign waker must wake the one it was cloned from) and Waker!seen: the reference count the original observes at the instant it is woken (a wake must run while the clone it goes through is still held).",
+    text="TLC exhaustively checks spec/Waker.tla (original waker count/wakes, shared records, foreign waker slots owned by threads, polls) and shows that the pre-fix deviation violates ReleasedAtMostOnce; every generated behaviour is replayed through opaque Future, Stream and Sink objects whose poll executes the script step by step so other threads' operations interleave with the poll; simulate behaviours of depth 60; random traces validated by TLC. Later rounds: two caller wakers (successive polls come with different wakers; a retained foreign waker must wake the one it was cloned from) and Waker!seen: the reference count the original observes at the instant it is woken (a wake must run while the clone it goes through is still held). Round 7: the by-value wake is two actions (FWakeBegin: the caller's wake function is entered; FWakeEnd: it returns and the handle is given up) with arbitrary operations of the same thread (re-entrantly, from inside the wake function) and of other threads in between; the adapter holds the original's wake function open and executes the nested commands from inside it.",
     note="Trusted: TLC, rt/src/wakerad.rs (counting Arc waker with 64 spare references so a double release is a count, Waker::data() for record identity). Found and fixed F1 (see known_findings.json).",
     technique="TLA+ spec + TLC exhaustive model check (ideal and deviation configs); behaviour replay through opaque Future/Stream/Sink; trace validation by TLC",
     design="DESIGN.md §5 C19, §6 F1")
@@ -72,19 +72,19 @@ CHECKS["C02"] = dict(
     technique="TLA+ grammar enumerated by TLC; each enumerated program compiled and executed against the implementation (translation of spec states into programs)",
     design="DESIGN.md §5 C02")
 CHECKS["C03"] = dict(
-    text="spec/Shapes.tla states (ASSUME AllFfiSafe) that every C type the generator is documented to produce for the grammar is C-representable and predicts each slot's signature; every enumerated definition is expanded by the real cglue-gen (linked as a library), written out as ordinary source and compiled with rustc's improper_ctypes / improper_ctypes_definitions lints on vtable fields, wrapper functions and concrete Box/ArcBox/Ref/Mut instantiations; every generated struct and every public wrapper type in cglue/src is scanned for #[repr(C)]/#[repr(transparent)]/#[repr(u8)]; vtable entries must be extern \"C\". Two non-C shapes (tuple, Rust-ABI fn pointer) are canaries that the lint is live. Signature differences from the prediction are model drift, not alarms. Later rounds: every argument shape also on a method that uses integer result codes (quick selection); shapes listed under C02.",
+    text="spec/Shapes.tla states (ASSUME AllFfiSafe) that every C type the generator is documented to produce for the grammar is C-representable and predicts each slot's signature; every enumerated definition is expanded by the real cglue-gen (linked as a library), written out as ordinary source and compiled with rustc's improper_ctypes / improper_ctypes_definitions lints on vtable fields, wrapper functions and concrete Box/ArcBox/Ref/Mut instantiations; every generated struct and every public wrapper type in cglue/src is scanned for #[repr(C)]/#[repr(transparent)]/#[repr(u8)]; vtable entries must be extern \"C\". Two non-C shapes (tuple, Rust-ABI fn pointer) are canaries that the lint is live. Signature differences from the prediction are model drift, not alarms. Later rounds: every argument shape also on a method that uses integer result codes (quick selection); shapes listed under C02. Round 7: the documented shapes over an unwrapped associated type (Self::Item, &Self::Item, &[Self::Item], Option<Self::Item>, Result<Self::Item,_>; generic vtable parameter).",
     note="Trusted: rustc's FFI lints (the final judge), syn-based scan in harness/gen. Quick = pairwise slice, thorough = full grammar.",
     technique="TLA+ grammar enumerated by TLC with predicted signatures; real generator expansion judged by the compiler's FFI lint",
     design="DESIGN.md §5 C03")
 
 CHECKS["C04"] = dict(
-    text="spec/Layout.tla defines the documented layout (vtable = methods in declaration order; group = mandatory vtables by name, optional vtables by name/alias, container {instance, context, temporaries}) and TLC checks (ASSUME OrderInvariant) that it does not depend on listing order while enumerating every listing order of every group set over a pool of traits whose declaration order is not alphabetical. The real generator expands the definitions in repeated fresh processes (identical layout tables required), the field tables are compared with the predicted order, and a compiled crate reads real trait objects and group objects as raw words: vtable word k = k-th method's function pointer, group words = per-trait vtable pointers in the predicted order (null for absent optionals) followed by the instance, and concrete vs opaque forms have identical size, alignment and bits. Later rounds: mixed-case trait names (byte order), attribute-bearing methods (#[vtbl_only] slots stay in declaration order, #[skip_func] methods are not exported).",
+    text="spec/Layout.tla defines the documented layout (vtable = methods in declaration order; group = mandatory vtables by name, optional vtables by name/alias, container {instance, context, temporaries}) and TLC checks (ASSUME OrderInvariant) that it does not depend on listing order while enumerating every listing order of every group set over a pool of traits whose declaration order is not alphabetical. The real generator expands the definitions in repeated fresh processes (identical layout tables required), the field tables are compared with the predicted order, and a compiled crate reads real trait objects and group objects as raw words: vtable word k = k-th method's function pointer, group words = per-trait vtable pointers in the predicted order (null for absent optionals) followed by the instance, and concrete vs opaque forms have identical size, alignment and bits. Later rounds: mixed-case trait names (byte order), attribute-bearing methods (#[vtbl_only] slots stay in declaration order, #[skip_func] methods are not exported). Round 7: Layout!ContainerWords - word offsets of instance, context and temporary storage over the full product instance{CBox,&} x context{none,CArc} x storage{none, wrapped reference}, read from real single-trait objects (Arc payload pointer and wrapped-reference object found at the predicted words).",
     note="Trusted: TLC, harness/gen (syn field tables), the raw-word reader. Cross-crate/plugin sides are exercised by C05.",
     technique="TLA+ layout function checked for order-invariance and enumerated by TLC; generator output and raw object words compared with the prediction",
     design="DESIGN.md §5 C04")
 
 CHECKS["C20"] = dict(
-    text="spec/LayoutCheck.tla defines the C-visible interface of a trait/group, the verdict of comparing two builds and the verdict algebra; TLC checks the algebra laws and that, over the enumerated single-edit variants (add/remove/rename/reorder a method, change an argument or return type, receiver kind, int_result, add an argument; documentation, default bodies and skip_func methods; group traits added, removed, replaced, relisted), Valid is predicted exactly for interface-preserving edits. Every variant is rendered into its own module of a crate built with the layout_checks feature and compared with cglue's compare_layouts in both directions; missing descriptions must give Unknown; VerifyLayout::and is compared with the model on all 9 pairs. Later rounds: the base trait has four methods (ref, mut, ref/Result, by-value) and every per-method edit is applied at every position; group edits include a changed method inside a mandatory, an optional and the last optional member trait; is_valid_strict / is_valid_relaxed per verdict.",
+    text="spec/LayoutCheck.tla defines the C-visible interface of a trait/group, the verdict of comparing two builds and the verdict algebra; TLC checks the algebra laws and that, over the enumerated single-edit variants (add/remove/rename/reorder a method, change an argument or return type, receiver kind, int_result, add an argument; documentation, default bodies and skip_func methods; group traits added, removed, replaced, relisted), Valid is predicted exactly for interface-preserving edits. Every variant is rendered into its own module of a crate built with the layout_checks feature and compared with cglue's compare_layouts in both directions; missing descriptions must give Unknown; VerifyLayout::and is compared with the model on all 9 pairs. Later rounds: the base trait has four methods (ref, mut, ref/Result, by-value) and every per-method edit is applied at every position; group edits include a changed method inside a mandatory, an optional and the last optional member trait; is_valid_strict / is_valid_relaxed per verdict. Round 7: methods whose arguments/returns are the library's generic wrappers (OpaqueCallback, CIterator, slice, Option, CVec, CTup2, CBox) with element-type edits in first/second argument and return position.",
     note="Trusted: TLC, abi_stable's layout comparison (the executed oracle), the renderer. Complete enumeration of the listed edit kinds on one base definition.",
     technique="TLA+ interface/verdict model enumerated by TLC; each (definition, edit) pair compiled and compared at run time",
     design="DESIGN.md §5 C20")
@@ -96,7 +96,7 @@ CHECKS["C16"] = dict(
     design="DESIGN.md §5 C16")
 
 CHECKS["C05"] = dict(
-    text="No separate model: the specifications already checked by TLC for C06/C07/C11 (spec/CGlueObj.tla, spec/CVec.tla) are bound to a two-module configuration. A plugin (cdylib with its own ledger allocator) and the host adapter are built by separate cargo invocations from a matrix of installed toolchains x debug/release x -Zrandomize-layout seeds; every object, group, vector and arc is created inside the plugin through extern \"C\" constructors returning #[repr(C)] values, and the TLC-generated behaviours are replayed with all calls, casts, clones, by-value calls and destruction issued by the host. Besides the per-step comparison with the specification, the host's ledger must see no free of memory it did not allocate and the plugin's live-block count must return to its base (memory released by the module that allocated it). Later rounds: vectors with capacity 0 (CVec::default) created in the plugin and first grown in the host; clones made in the host of plugin-created vectors.",
+    text="No separate model: the specifications already checked by TLC for C06/C07/C11 (spec/CGlueObj.tla, spec/CVec.tla) are bound to a two-module configuration. A plugin (cdylib with its own ledger allocator) and the host adapter are built by separate cargo invocations from a matrix of installed toolchains x debug/release x -Zrandomize-layout seeds; every object, group, vector and arc is created inside the plugin through extern \"C\" constructors returning #[repr(C)] values, and the TLC-generated behaviours are replayed with all calls, casts, clones, by-value calls and destruction issued by the host. Besides the per-step comparison with the specification, the host's ledger must see no free of memory it did not allocate and the plugin's live-block count must return to its base (memory released by the module that allocated it). Later rounds: vectors with capacity 0 (CVec::default) created in the plugin and first grown in the host; clones made in the host of plugin-created vectors. Round 7: a second exhaustive configuration with failing casts (MC_CGlueObj_cast.cfg); vectors, boxed slices and boxes of ReprCString (elements own memory of the creating module) made by one module and destroyed by the other, both directions; callbacks and iterators in all four creator/user combinations.",
     note="Trusted: TLC, both adapters, the ledger allocators. Quick = 2 module pairs (stable-debug x nightly-release-randomized, both directions); thorough = 8 pairs over 6 build variants.",
     technique="TLC-generated behaviours of the object/vector specifications replayed across a matrix of separately compiled module pairs with tagging allocators",
     design="DESIGN.md §5 C05")
